@@ -157,3 +157,6 @@ func Peek(cell any) any { panic("verifspec: ghost function") }
 // Old(e): the value of e in the state in which the function under contract
 // was called (function contracts only).  Sugar wraps e in a thunk.
 func Old(f func() any) any { panic("verifspec: ghost function") }
+
+// AtEntry(e): inside a loop invariant: the value e had when the loop was first reached.
+func AtEntry(f func() any) any { panic("verifspec: ghost function") }
